@@ -31,37 +31,49 @@ def others (w : Fin n → ℕ) (x : Fin n) : ℕ := ∑ y : Fin n, if y ≠ x th
     (each other key collides with `x` under exactly `W^(n-1)` of the `W^n` functions) -/
 theorem sum_err (hW : 0 < W) (hn : 0 < n) (w : Fin n → ℕ) (x : Fin n) :
     ∑ h : Fin n → Fin W, err w x h = others w x * W ^ (n - 1) := by
-  sorry
+  unfold err others
+  rw [Finset.sum_comm, Ideal.sum_mul_nat]
+  exact Finset.sum_congr rfl fun y _ => Ideal.sum_collide w x y
 
 /-- Markov by counting, one row: #{h | err ≥ T} · T ≤ others · W^(n-1) -/
 theorem row_markov (hW : 0 < W) (hn : 0 < n) (w : Fin n → ℕ) (x : Fin n) (T : ℕ) :
     (univ.filter fun h : Fin n → Fin W => T ≤ err w x h).card * T ≤ others w x * W ^ (n - 1) := by
-  sorry
+  rw [← sum_err hW hn w x]
+  calc (univ.filter fun h : Fin n → Fin W => T ≤ err w x h).card * T
+      = ∑ _h ∈ univ.filter (fun h : Fin n → Fin W => T ≤ err w x h), T :=
+        (Finset.sum_const_nat fun _ _ => rfl).symm
+    _ ≤ ∑ h ∈ univ.filter (fun h : Fin n → Fin W => T ≤ err w x h), err w x h :=
+        Finset.sum_le_sum fun h hh => (Finset.mem_filter.mp hh).2
+    _ ≤ ∑ h : Fin n → Fin W, err w x h :=
+        Finset.sum_le_sum_of_subset (Finset.filter_subset _ _)
 
 /-- independence across rows: the tuples of `d` column functions that are bad in EVERY row are
     exactly the `d`-th power of the bad set -/
 theorem depth_product (w : Fin n → ℕ) (x : Fin n) (T : ℕ) :
     (univ.filter fun hs : Fin d → (Fin n → Fin W) => ∀ r, T ≤ err w x (hs r)).card
       = (univ.filter fun h : Fin n → Fin W => T ≤ err w x h).card ^ d := by
-  sorry
+  exact Ideal.card_filter_forall (fun h : Fin n → Fin W => T ≤ err w x h)
 
 /-- the depth bound: (#bad tuples) · T^d ≤ (others · W^(n-1))^d, i.e. the fraction of the
     (W^n)^d hash tuples that are bad in every row is ≤ (others / (W·T))^d -/
 theorem C14_ideal (hW : 0 < W) (hn : 0 < n) (w : Fin n → ℕ) (x : Fin n) (T : ℕ) :
     (univ.filter fun hs : Fin d → (Fin n → Fin W) => ∀ r, T ≤ err w x (hs r)).card * T ^ d
       ≤ (others w x * W ^ (n - 1)) ^ d := by
-  sorry
+  rw [depth_product, ← mul_pow]
+  exact Nat.pow_le_pow_left (row_markov hW hn w x T) d
 
 /-- number of all hash tuples, for reading the bound as a fraction -/
 theorem card_tuples : Fintype.card (Fin d → (Fin n → Fin W)) = (W ^ n) ^ d := by
-  sorry
+  rw [Fintype.card_fun, Fintype.card_fun, Fintype.card_fin, Fintype.card_fin, Fintype.card_fin]
 
 /-- transfer to the sketch: if the estimate of `x` exceeds its true count by at least `T` then the
     classic error is ≥ T in every row (contrapositive of C01's upper bound, stated arithmetically:
     `est ≤ w x + err_r` for every row `r`) -/
 theorem bad_estimate_all_rows (w : Fin n → ℕ) (x : Fin n) (hs : Fin d → (Fin n → Fin W)) (est T : ℕ)
     (hupper : ∀ r, est ≤ w x + err w x (hs r)) (hbad : w x + T ≤ est) : ∀ r, T ≤ err w x (hs r) := by
-  sorry
+  intro r
+  have := hupper r
+  omega
 
 /-! non-vacuity: 3 keys of weight 1,2,3, width 2: of the 8 functions, key 0 collides with weight ≥ 2
     in 6 of them (sum of errors = 5 · 2^2 = 20) -/
